@@ -123,7 +123,7 @@ def run(ck):
         for b in paths: lines += ["join %s %s" % (hx(a), hx(b)), "rel %s %s" % (hx(a), hx(b))]
     for s in ["", "plain", "$A", "x$A/y", "~", "~/a:$A$EMPTY$NOPE", "$A" * 12, "a" * 300 + "$A"]: lines.append("expand " + hx(s))
     for s in [".", "nonexistent", "/", "../" + os.path.basename(scratch)]: lines.append("canon " + hx(s))
-    lines += ["curpath", "tmppath", "mktemp " + hx("zixtmpXXXXXX"), "mkdirs " + hx("m/n/o"), "mkdirs " + hx("m/n/o"), "mkdirs " + hx("p/./q/../r/")]
+    lines += ["curpath", "tmppath", "mktemp " + hx("zixtmpXXXXXX"), "mktemp " + hx("no-pattern-here"), "mktemp " + hx("nodir/zixtmpXXXXXX"), "mkdirs " + hx("m/n/o"), "mkdirs " + hx("m/n/o"), "mkdirs " + hx("p/./q/../r/")]
     for size in ["1", "8", "1000", "100000"]: lines.append("ring " + size)
     for size in ["0", "80000001", "ffffffff", "c0000000"]: lines.append("ringbad " + size)     # sizes (hex) the constructor must refuse
     sp = ck.write_script("c07.script", lines)
